@@ -657,7 +657,8 @@ register("C05", run_C05, module="Robotools.Props.C05",
                    "removeStep_frac", "removeStep_amount", "addStep_fracSum", "frac_range", "pair_conserves", "pair_same_well")], rule="transfer/distribute/dispense histories with shared component names; exact amounts ledger")
 register("C06", run_C06, module="Robotools.Props.C06",
          theorems=["Robotools.C06.partition_spec", "Robotools.C06.partition_zero", "Robotools.C06.multi_disp_fits",
-                   "Robotools.C06.multi_disp_unchanged"], rule="(volume, max_volume) grid incl. k*M, k*M±step, non-integer M; plus transfers with split volumes")
+                   "Robotools.C06.multi_disp_unchanged", "Robotools.C06.source_partition_spec",
+                   "Robotools.GenFns.gen_partition_volume_ok", "Robotools.GenFns.translated"], rule="(volume, max_volume) grid incl. k*M, k*M±step, non-integer M; plus transfers with split volumes")
 register("C07", run_C07, module="Robotools.Props.C07",
          theorems=["Robotools.C07." + t for t in ("flows_split", "flows_nosplit", "flows_perm", "flows_mode_indep", "discipline",
                    "pair_volume_bounds", "break_closes", "no_break_without_split", "action_records", "pair_same_fields", "rejects_lengths",
@@ -1583,7 +1584,13 @@ def gen_record_program(rng):
                 elif f == "pos_bad": op[rng.choice(["src_start", "src_end"])] = proto.Bad(1.5)
                 elif f == "rid": op[rng.choice(["src_rack_id", "dst_rack_type"])] = rng.choice(["a;b", "r" * 33])
         elif x < 0.7:
-            op = {"op": "comment", "text": rng.choice([None, "", T(40), T(10) + "\n" + T(10), "  " + T(5) + "\xa0", T(40, semi=1.0) if fault else T(5)])}
+            if fault:
+                # a separator anywhere in the comment refuses the WHOLE comment: also when it only appears in a later line
+                bad = rng.choice([T(40, semi=1.0) or ";", (T(8) or "a") + "\n" + (T(6) or "b") + ";" + T(4), "first\n\nsecond\nthird;x\nfourth",
+                                  (T(5) or "x") + "\n" + (T(5) or "y") + "\n;"])
+                op = {"op": "comment", "text": bad if ";" in bad else bad + ";"}
+            else:
+                op = {"op": "comment", "text": rng.choice([None, "", T(40), T(10) + "\n" + T(10), "  " + T(5) + "\xa0", T(5), "a\n\n b \nc"])}
         elif x < 0.8:
             op = {"op": "wash", "scheme": rng.choice([0, 5, -1]) if fault else rng.randint(1, 4)}
         elif x < 0.85:
